@@ -379,6 +379,78 @@ def vcertSpec (args tr impl : List String) : String :=
       "bad C15:accepted-a-certificate-that-does-not-match-the-block"
     else "ok"
 
+/-- the token groups of an op line, separated by "|" -/
+def splitGroups (args : List String) : List (List String) :=
+  (args.foldr (fun t (acc : List (List String)) =>
+    if t = "|" then [] :: acc else match acc with | g :: r => (t :: g) :: r | [] => [[t]]) [[]])
+
+structure TlsBlk where
+  name : String
+  tls : Nat
+  addrMatch : Bool
+  certOk : Bool
+  certSpecOk : Bool
+
+/-- dotted-quad text (as octets) to four octets -/
+def ipv4OfText (b : Bytes) : Option Bytes :=
+  let parts := (String.fromUTF8! ⟨b.toArray⟩).splitOn "."
+  if parts.length ≠ 4 then none else
+  parts.mapM fun p => p.toNat?.bind fun n => if n < 256 then some (UInt8.ofNat n) else none
+
+/-- one client block of a `tlsconn` line against the peer: is the source in its host list; does it accept the certificate -/
+def tlsBlk (src : Bytes) (certToks tr blk : List String) : Option TlsBlk := do
+  let v ← parseVCert (blk ++ certToks)
+  let hosts ← v.conf.hostports.mapM fun (h, p) => (ipv4OfText h).map fun a => (a, p)
+  pure { name := (kvTok blk "name").getD "blk", tls := ((kvTok blk "tls").bind (·.toNat?)).getD 0,
+         addrMatch := hosts.any fun (a, p) => if p ≥ 32 then a == src else Addr.prefixmatch src a p,
+         certOk := Cert.verifyConf (libOf tr) v.conf v.cert none none,
+         certSpecOk := Spec.Cert.acceptB (libOf tr true) v.conf v.cert none none }
+
+/-- `tlsservernew` up to the attribution: the first block listing the source decides the TLS context; a peer whose certificate chain
+    does not verify is nobody; else the connection belongs to the first block LISTING THE SOURCE, of that context, whose certificate
+    conditions the peer meets -/
+def tlsconnModel (args tr : List String) : String :=
+  match args with
+  | src :: rest =>
+    (match ipv4OfText src.toUTF8.toList, splitGroups rest with
+     | some srcb, certToks :: blocks =>
+       (match blocks.mapM (tlsBlk srcb certToks tr) with
+        | none => "bad-op"
+        | some bs =>
+          let cands := bs.filter (·.addrMatch)
+          match cands.head? with
+          | none => "tlsconn none"
+          | some first =>
+            if kvTok certToks "ca" == some "other" then "tlsconn none" else
+            match cands.find? fun c => c.tls = first.tls && c.certOk with
+            | some c => "tlsconn attributed:" ++ c.name
+            | none => "tlsconn none")
+     | _, _ => "bad-op")
+  | _ => "bad-op"
+
+def tlsconnSpec (args tr impl : List String) : String :=
+  if impl.any (·.startsWith "crash") then "bad sanitizer-or-crash" else
+  match args with
+  | src :: rest =>
+    (match ipv4OfText src.toUTF8.toList, splitGroups rest with
+     | some srcb, certToks :: blocks =>
+       (match blocks.mapM (tlsBlk srcb certToks tr), impl with
+        | some bs, ["tlsconn", r] =>
+          if r = "none" then "ok" else
+          let n := (r.drop 11).toString
+          (match bs.find? (·.name = n) with
+           | none => "bad C14:tls-connection-attributed-to-an-unknown-block"
+           | some b =>
+             -- C14: the block a connection is attributed to lists the peer's address
+             if !b.addrMatch then "bad C14:tls-connection-attributed-to-a-client-block-whose-host-list-does-not-contain-the-peer"
+             -- C15: … and the peer's certificate verifies and meets that block's conditions
+             else if kvTok certToks "ca" == some "other" then "bad C15:peer-with-a-certificate-from-an-untrusted-issuer-accepted"
+             else if !b.certSpecOk then "bad C15:tls-connection-attributed-to-a-block-whose-certificate-conditions-the-peer-does-not-meet"
+             else "ok")
+        | _, _ => "bad-op")
+     | _, _ => "bad-op")
+  | _ => "bad-op"
+
 /-- canonical line of the dynamic-lookup op, as the harness prints it -/
 def showLookup (r : Option (Bytes × DynRealm.Lookup)) : String :=
   match r with
